@@ -56,11 +56,14 @@ def gen_history(rng, names, stable, nsteps, hp_ok=True):
             steps.append([oi, rng.choice(["mul", "div"]), [float(rng.choice([2.0, 3.0, 0.1, 7.5])).hex()]])
         elif r < 0.96:
             steps.append([oi, "nuclide_queries", [rng.choice(pool)]])
-        elif r < 0.975:
+        elif r < 0.97:
             steps.append([oi, "dataset_queries", [rng.choice(radio), rng.choice(pool)]])
-        elif r < 0.99:
-            # a NON-mutating call that fails (unsupported unit / option): everything must be as before, too
-            steps.append([oi, rng.choice(["plot_bad", "series_bad", "decay_bad", "to_csv_bad", "activities_bad"]), []])
+        elif r < 0.995:
+            # a NON-mutating call that fails (unsupported unit / option): everything must be as before, too - preferably on the
+            # high-precision object, which has more state (working precision)
+            hps = [i for i, o in enumerate(objs) if o["cls"] == "InventoryHP"]
+            tgt = hps[0] if hps and rng.random() < 0.6 else oi
+            steps.append([tgt, rng.choice(["plot_bad", "plot_bad", "series_bad", "decay_bad", "to_csv_bad", "activities_bad"]), []])
         else:
             steps.append([oi, "eq", [rng.randrange(6)]])
     probe = {"contents": {"U-238": float(1e20).hex(), "Th-234": float(5e3).hex()}, "t": float(1e6).hex()}
